@@ -18,8 +18,23 @@ def _fns():
     return loader.lib("eolib.encrypt.encryption_utils")
 
 
+VIEW = [False]  # when set, the primitives get a writable memoryview over the bytearray (in-place use on a packet slice)
+
+
 def _apply(fn, data, *args):
     buf = bytearray(data)
+    if VIEW[0]:
+        backing = bytearray(b"\xa5" + bytes(data) + b"\xa5")
+        view = memoryview(backing)[1 : 1 + len(data)]
+        try:
+            r = fn(view, *args)
+        except Exception as e:  # noqa: BLE001
+            return ("exc", type(e).__name__, bytes(view))
+        if backing[0] != 0xA5 or backing[-1] != 0xA5:
+            return ("returned", "wrote outside the view", bytes(view))
+        if r is not None:
+            return ("returned", repr(r), bytes(view))
+        return ("ok", None, bytes(view))
     try:
         r = fn(buf, *args)
     except Exception as e:  # noqa: BLE001
@@ -151,6 +166,23 @@ def _seq_shard(firsts):
     return count, bad
 
 
+def _view_shard(L):
+    """The same oracles with a writable memoryview as the argument (lengths 0..39, three fillings, multiples 0..9)."""
+    loader.install_shims()
+    VIEW[0] = True
+    try:
+        count, bad = 0, []
+        for data in (_marks(L, 251), bytes((i * 3) % 256 for i in range(L)), bytes([0, 128, 1, 129] * (L // 4 + 1))[:L]):
+            for kind, args in [("perm", ()), ("flip", ())] + [("swap", (m,)) for m in (0, 1, 3, 7, -1)]:
+                count += 1
+                w = check_perm(data) if kind == "perm" else check_flip(data) if kind == "flip" else check_swap(data, args[0])
+                if w and len(bad) < 3:
+                    bad.append(({"fn": kind, "data": data, "mult": args[0] if args else 0, "view": True}, "(argument is a writable memoryview) " + w))
+        return count, bad
+    finally:
+        VIEW[0] = False
+
+
 def _marks(n, mod):
     return bytes((i * 7 + 1) % mod for i in range(n))
 
@@ -264,6 +296,7 @@ def run(tier, seed):
     results += par.pmap(_short_shard, [([p], pa2, 4 if quick else 5, "pipe") for p in itertools.product(pa2, repeat=1)])
 
     results += par.pmap(_seq_shard, [[a] for a in SEQ_ATOMS])
+    results += par.pmap(_view_shard, [L for L in range(0, 40)])
 
     evals = sum(r[0] for r in results)
     violations = []
@@ -299,6 +332,7 @@ def run(tier, seed):
 def replay(case):
     loader.install_shims()
     fn = case["fn"]
+    VIEW[0] = bool(case.get("view"))
     if fn == "seq":
         return check_seq([tuple(a) for a in case["seq"]])
     data = bytes(case["data"])
